@@ -17,25 +17,35 @@
 (* others drop the instances of its clients when they notice; a node that  *)
 (* starts pulls the others' own instances (snapshot).                      *)
 (*                                                                         *)
-(* One service; an instance = an address (ip:port).  Take-over of an       *)
+(* One service; an instance = an address (ip:port) with attributes         *)
+(* (enabled state and weight as one value of Attr; registering an address  *)
+(* that is already held changes them).  Take-over of an                    *)
 (* address is modelled between connections of the SAME node (a client that *)
 (* reconnects, two SDK clients with one address); an address is not        *)
 (* registered through two nodes at once (model limit).                     *)
+(*                                                                         *)
+(* Channels: the sync messages of one owner to one receiver are delivered  *)
+(* in the order they were sent (one sender actor per target).  With        *)
+(* AllowReorder = TRUE any order is allowed (a failed send is retried      *)
+(* while the next batch is already on its way): presence is still repaired *)
+(* by the anti-entropy round, but a change of ATTRIBUTES that is overtaken *)
+(* (or lost) is never repaired - the round compares keys only.  That       *)
+(* configuration is kept as a model-level observation.                     *)
 (*                                                                         *)
 (* Negative control: Defect_StaleClientIndexOnSync - an update that        *)
 (* arrives by sync and moves an address to another client does not take    *)
 (* the key out of the old client's index.                                  *)
 (***************************************************************************)
-EXTENDS Naturals, FiniteSets, TLC
+EXTENDS Naturals, Sequences, FiniteSets, TLC
 
-CONSTANTS Node, Conn, Home, Addr, MaxOps, Defect_StaleClientIndexOnSync
+CONSTANTS Node, Conn, Home, Addr, Attr, MaxOps, AllowReorder, Defect_StaleClientIndexOnSync
 
 VARIABLES
     alive,      \* node -> BOOLEAN
     open,       \* connection -> BOOLEAN
-    inst,       \* node -> (address -> [client, from])   from = 0: registered here, else the owner node
+    inst,       \* node -> (address -> [client, from, attr])   from = 0: registered here, else the owner node
     cidx,       \* node -> (connection -> set of addresses)
-    msgs,       \* messages in flight (a set: any order of delivery)
+    msgs,       \* channels: <<src, dst>> -> sequence of messages in flight
     ops         \* client / fault operations so far
 
 vars == <<alive, open, inst, cidx, msgs, ops>>
@@ -45,17 +55,26 @@ NoInst == [a \in {} |-> 0]
 Without(f, k) == [x \in (DOMAIN f) \ {k} |-> f[x]]
 With(f, k, v) == [x \in (DOMAIN f) \cup {k} |-> IF x = k THEN v ELSE f[x]]
 ClientSet(n, c) == IF c \in DOMAIN cidx[n] THEN cidx[n][c] ELSE {}
+Pairs == {p \in Node \X Node : p[1] # p[2]}
+InFlight == UNION {{msgs[p][i] : i \in 1..Len(msgs[p])} : p \in Pairs}
+\* append every message of the set S to the channel it belongs to (messages of one call concern different addresses:
+\* their relative order does not matter)
+RECURSIVE SendAll(_, _)
+SendAll(ch, S) ==
+    IF S = {} THEN ch
+    ELSE LET m == CHOOSE x \in S : TRUE
+         IN SendAll([ch EXCEPT ![<<m.src, m.dst>>] = Append(@, m)], S \ {m})
 
 \* index after address a is taken from client c (an emptied set stays, as in the code)
 IdxRemove(ix, c, a) == IF c \in DOMAIN ix THEN [ix EXCEPT ![c] = @ \ {a}] ELSE ix
 IdxAdd(ix, c, a) == With(ix, c, (IF c \in DOMAIN ix THEN ix[c] ELSE {}) \cup {a})
 
 \* NamingActor::update_instance on node n for address a held by client c coming from node `from` (0 = local request)
-UpdateOn(n, a, c, from, fromSync) ==
+UpdateOn(n, a, c, from, fromSync, at) ==
     LET old == IF a \in DOMAIN inst[n] THEN inst[n][a].client ELSE "none"
         ix1 == IF old # "none" /\ old # c /\ ~(fromSync /\ Defect_StaleClientIndexOnSync)
                THEN IdxRemove(cidx[n], old, a) ELSE cidx[n]
-    IN [i |-> With(inst[n], a, [client |-> c, from |-> from]), x |-> IdxAdd(ix1, c, a)]
+    IN [i |-> With(inst[n], a, [client |-> c, from |-> from, attr |-> at]), x |-> IdxAdd(ix1, c, a)]
 
 \* NamingActor::remove_instance(key, Some(client) / None): with a client, only that client's instance is removed
 RemoveOn(tab, ix, a, guard) ==
@@ -77,16 +96,16 @@ Op == ops < MaxOps /\ ops' = ops + 1
 Init ==
     /\ alive = [n \in Node |-> TRUE] /\ open = [c \in Conn |-> TRUE]
     /\ inst = [n \in Node |-> NoInst] /\ cidx = [n \in Node |-> [c \in {} |-> {}]]
-    /\ msgs = {} /\ ops = 0
+    /\ msgs = [p \in Pairs |-> <<>>] /\ ops = 0
 
 \* ------------------------------------------------------------------ client operations on the owner
-Register(c, a) ==
+Register(c, a, at) ==
     LET h == Home[c] IN
     /\ Op /\ open[c] /\ alive[h]
     /\ \A o \in Node \ {h} : ~(a \in DOMAIN inst[o] /\ inst[o][a].from = 0)      \* (model limit, see above)
-    /\ LET r == UpdateOn(h, a, c, 0, FALSE) IN
+    /\ LET r == UpdateOn(h, a, c, 0, FALSE, at) IN
          /\ inst' = [inst EXCEPT ![h] = r.i] /\ cidx' = [cidx EXCEPT ![h] = r.x]
-    /\ msgs' = msgs \cup {[t |-> "upd", src |-> h, dst |-> m, a |-> a, c |-> c] : m \in Others(h)}
+    /\ msgs' = SendAll(msgs, {[t |-> "upd", src |-> h, dst |-> m, a |-> a, c |-> c, at |-> at] : m \in Others(h)})
     /\ UNCHANGED <<alive, open>>
 
 Deregister(c, a) ==
@@ -94,7 +113,7 @@ Deregister(c, a) ==
     /\ Op /\ open[c] /\ alive[h] /\ a \in DOMAIN inst[h] /\ inst[h][a].client = c /\ inst[h][a].from = 0
     /\ LET r == RemoveOn(inst[h], cidx[h], a, c) IN
          /\ inst' = [inst EXCEPT ![h] = r.i] /\ cidx' = [cidx EXCEPT ![h] = r.x]
-    /\ msgs' = msgs \cup {[t |-> "rm", src |-> h, dst |-> m, a |-> a, c |-> c] : m \in Others(h)}
+    /\ msgs' = SendAll(msgs, {[t |-> "rm", src |-> h, dst |-> m, a |-> a, c |-> c, at |-> "-"] : m \in Others(h)})
     /\ UNCHANGED <<alive, open>>
 
 Close(c) ==
@@ -103,27 +122,30 @@ Close(c) ==
     /\ open' = [open EXCEPT ![c] = FALSE]
     /\ LET r == RemoveClientOn(h, c) IN
          /\ inst' = [inst EXCEPT ![h] = r.i] /\ cidx' = [cidx EXCEPT ![h] = r.x]
-    /\ msgs' = msgs \cup {[t |-> "rmclient", src |-> h, dst |-> m, a |-> "", c |-> c] : m \in Others(h)}
+    /\ msgs' = SendAll(msgs, {[t |-> "rmclient", src |-> h, dst |-> m, a |-> "", c |-> c, at |-> "-"] : m \in Others(h)})
     /\ UNCHANGED alive
 
 \* a connection is opened again (a new connection in the code; the model reuses the name once it is forgotten everywhere)
 Reopen(c) ==
     /\ Op /\ ~open[c] /\ alive[Home[c]]
     /\ \A n \in Node : c \notin DOMAIN cidx[n]
-    /\ \A m \in msgs : m.c # c
+    /\ \A m \in InFlight : m.c # c
     /\ open' = [open EXCEPT ![c] = TRUE]
     /\ UNCHANGED <<alive, inst, cidx, msgs>>
 
 \* ------------------------------------------------------------------ sync messages
-Deliver(m) ==
-    /\ m \in msgs /\ msgs' = msgs \ {m}
-    /\ IF ~alive[m.dst] THEN UNCHANGED <<inst, cidx>>
-       ELSE LET n == m.dst
-                r == CASE m.t = "upd" -> UpdateOn(n, m.a, m.c, m.src, TRUE)
-                       [] m.t = "rm" -> RemoveOn(inst[n], cidx[n], m.a, m.c)
-                       [] m.t = "rmclient" -> RemoveClientOn(n, m.c)
-                       [] OTHER -> [i |-> inst[n], x |-> cidx[n]]
-            IN inst' = [inst EXCEPT ![n] = r.i] /\ cidx' = [cidx EXCEPT ![n] = r.x]
+\* the message at position i of channel p is handled by its receiver (i = 1 unless AllowReorder)
+Deliver(p, i) ==
+    /\ i \in 1..Len(msgs[p]) /\ (AllowReorder \/ i = 1)
+    /\ LET m == msgs[p][i] IN
+         /\ msgs' = [msgs EXCEPT ![p] = [j \in 1..(Len(@) - 1) |-> IF j < i THEN @[j] ELSE @[j + 1]]]
+         /\ IF ~alive[m.dst] THEN UNCHANGED <<inst, cidx>>
+            ELSE LET n == m.dst
+                     r == CASE m.t = "upd" -> UpdateOn(n, m.a, m.c, m.src, TRUE, m.at)
+                            [] m.t = "rm" -> RemoveOn(inst[n], cidx[n], m.a, m.c)
+                            [] m.t = "rmclient" -> RemoveClientOn(n, m.c)
+                            [] OTHER -> [i |-> inst[n], x |-> cidx[n]]
+                 IN inst' = [inst EXCEPT ![n] = r.i] /\ cidx' = [cidx EXCEPT ![n] = r.x]
     /\ UNCHANGED <<alive, open, ops>>
 
 \* ------------------------------------------------------------------ anti-entropy (one owner, one receiver)
@@ -147,6 +169,7 @@ ForgetClients(tab, ix, cs) ==
 \* owner's at the time of the answer
 DistroRound(o, n) ==
     /\ o # n /\ alive[o] /\ alive[n]
+    /\ msgs[<<o, n>>] = <<>>          \* (rounds are 12 s apart, deliveries take milliseconds: nothing of o is still on its way to n)
     /\ LET rep == Report(o)
            extra == UNION {ClientSet(n, c) \ rep[c] : c \in DOMAIN rep}
            r1 == RemoveKeys(inst[n], cidx[n], extra)
@@ -157,7 +180,7 @@ DistroRound(o, n) ==
                           /\ a \in DOMAIN inst[o] /\ inst[o][a].from = 0 /\ inst[o][a].client = c}
        IN /\ \/ extra # {} \/ gone # {} \/ missing # {}          \* (a round that changes nothing is a stutter)
           /\ inst' = [inst EXCEPT ![n] = r2.i] /\ cidx' = [cidx EXCEPT ![n] = r2.x]
-          /\ msgs' = msgs \cup {[t |-> "upd", src |-> o, dst |-> n, a |-> p[2], c |-> p[1]] : p \in missing}
+          /\ msgs' = SendAll(msgs, {[t |-> "upd", src |-> o, dst |-> n, a |-> p[2], c |-> p[1], at |-> inst[o][p[2]].attr] : p \in missing})
     /\ UNCHANGED <<alive, open, ops>>
 
 \* ------------------------------------------------------------------ node death and start
@@ -166,7 +189,7 @@ Die(n) ==
     /\ alive' = [alive EXCEPT ![n] = FALSE]
     /\ open' = [c \in Conn |-> IF Home[c] = n THEN FALSE ELSE open[c]]
     /\ inst' = [inst EXCEPT ![n] = NoInst] /\ cidx' = [cidx EXCEPT ![n] = [c \in {} |-> {}]]
-    /\ msgs' = {m \in msgs : m.dst # n /\ m.src # n}
+    /\ msgs' = [p \in Pairs |-> IF p[1] = n \/ p[2] = n THEN <<>> ELSE msgs[p]]
 \* another node notices (check_node_status): the dead node's clients are dropped
 Notice(m, n) ==
     /\ alive[m] /\ ~alive[n]
@@ -178,29 +201,29 @@ Notice(m, n) ==
 Start(n) ==
     /\ Op /\ ~alive[n]
     /\ alive' = [alive EXCEPT ![n] = TRUE]
-    /\ msgs' = msgs \cup UNION {{[t |-> "upd", src |-> o, dst |-> n, a |-> a, c |-> inst[o][a].client] :
-                                     a \in {z \in Addr : z \in DOMAIN inst[o] /\ inst[o][z].from = 0}} :
-                                   o \in {x \in Node : alive[x] /\ x # n}}
+    /\ msgs' = SendAll(msgs, UNION {{[t |-> "upd", src |-> o, dst |-> n, a |-> a, c |-> inst[o][a].client, at |-> inst[o][a].attr] :
+                                        a \in {z \in Addr : z \in DOMAIN inst[o] /\ inst[o][z].from = 0}} :
+                                      o \in {x \in Node : alive[x] /\ x # n}})
     /\ UNCHANGED <<open, inst, cidx>>
 
 Next ==
-    \/ \E c \in Conn, a \in Addr : Register(c, a) \/ Deregister(c, a)
+    \/ \E c \in Conn, a \in Addr : (\E at \in Attr : Register(c, a, at)) \/ Deregister(c, a)
     \/ \E c \in Conn : Close(c) \/ Reopen(c)
-    \/ \E m \in msgs : Deliver(m)
+    \/ \E p \in Pairs : \E i \in 1..2 : Deliver(p, i)
     \/ \E o \in Node, n \in Node : DistroRound(o, n)
     \/ \E n \in Node : Die(n) \/ Start(n) \/ (\E m \in Node : Notice(m, n))
 
 Fairness ==
     /\ \A o \in Node, n \in Node : WF_vars(DistroRound(o, n))
     /\ \A m \in Node, n \in Node : WF_vars(Notice(m, n))
-    /\ WF_vars(\E m \in msgs : Deliver(m))
+    /\ \A p \in Pairs : WF_vars(Deliver(p, 1))
 Spec == Init /\ [][Next]_vars /\ Fairness
 
 \* ------------------------------------------------------------------ properties
 \* the truth: what the owners hold for their own open connections
-Truth == UNION {{<<a, inst[o][a].client>> : a \in {z \in Addr : z \in DOMAIN inst[o] /\ inst[o][z].from = 0}} :
+Truth == UNION {{<<a, inst[o][a].client, inst[o][a].attr>> : a \in {z \in Addr : z \in DOMAIN inst[o] /\ inst[o][z].from = 0}} :
                 o \in {x \in Node : alive[x]}}
-View(n) == {<<a, inst[n][a].client>> : a \in DOMAIN inst[n]}
+View(n) == {<<a, inst[n][a].client, inst[n][a].attr>> : a \in DOMAIN inst[n]}
 AllAgree == \A n \in Node : alive[n] => View(n) = Truth
 \* C15: once registrations and deregistrations stop, every live node ends up with - and keeps - the same instances
 Converges == <>[]AllAgree
